@@ -53,6 +53,10 @@ M = [
  ('M11 sparse isProbability drops the |.|-sum test', 'src/Utils/Probability.cpp',
   '''                checkDifferentSmall(in.row(row).sum(), 1.0) ||
                 checkDifferentSmall(in.row(row).cwiseAbs().sum(), 1.0)''', '''                checkDifferentSmall(in.row(row).sum(), 1.0)'''),
+ ('M13 CooperativeModel constructor forgets the column-count test', 'src/Factored/MDP/CooperativeModel.cpp',
+  'if (static_cast<size_t>(transitions_.transitions[i].cols()) != graph_.getS()[i]) {', 'if (false) {'),
+ ('M14 CooperativeModel constructor forgets the state-tag test of the reward bases', 'src/Factored/MDP/CooperativeModel.cpp',
+  'std::tie(error, id) = checkTag(S, r.tag);', 'error = TagErrors::None;'),
  ('M12 checkTag no longer reports duplicates', 'src/Factored/Utils/Core.cpp',
   'if (tagV == previousV)    return std::make_pair(TagErrors::Duplicates, t);', ''),
 ]
